@@ -4,6 +4,7 @@ import (
 	"fmt"
 	"os"
 	"strings"
+	"time"
 
 	"github.com/youchainhq/go-youchain/logging"
 	"github.com/youchainhq/go-youchain/you/downloader"
@@ -59,26 +60,51 @@ func configs(r *mc.Run) []config {
 	return out
 }
 
+// multiConfigs: consecutive sync cycles on ONE queue and peer set.
+func multiConfigs(r *mc.Run) []config {
+	if r.Quick() {
+		return []config{
+			// first cycle starts above the fork point: the second can start below the first's origin
+			{pattern: "TETT", peers: 2, caps: []int{2}, cache: 3, cycles: 2, org1: 2, alt: "TTT", shared: 1},
+			// the next cycle on the same chain (origin below / at / above the point the
+			// window reached) or on a chain forking off after block 2 (origin 1..3)
+			{pattern: "TTTT", peers: 2, caps: []int{2}, cache: 3, cycles: 2, alt: "TTET", shared: 2},
+		}
+	}
+	return []config{
+		{pattern: "TTTT", peers: 2, caps: []int{2, 3}, cache: 3, cycles: 2, alt: "TTET", shared: 2, extra: true},
+		{pattern: "TETT", peers: 2, caps: []int{2, 3}, cache: 3, cycles: 2, org1: 2, alt: "TTT", shared: 1, extra: true},
+		// three cycles: what the second leaves behind meets the third
+		{pattern: "TTT", peers: 2, caps: []int{2}, cache: 2, cycles: 3, alt: "TTT", shared: 1},
+		// two arbitrary peers
+		{pattern: "TTT", peers: 3, caps: []int{2}, cache: 2, cycles: 2, alt: "TET", shared: 1},
+		{pattern: "ETTET", peers: 2, caps: []int{2, 3}, cache: 4, cycles: 2, org1: 2, alt: "ETTTT", shared: 3},
+		// as far as the budget of this part reaches (BFS: every state up to the depth completed)
+		{pattern: "TTTT", peers: 3, caps: []int{2}, cache: 3, cycles: 2, alt: "TTET", shared: 2},
+	}
+}
+
 func Run(r *mc.Run) {
 	r.Level = "model_checking"
 	setup()
 	r.Rule = "BFS to a fixpoint over every interleaving of: Schedule(next 1|2 headers), ReserveBodies(+FetchBodies) for any idle registered peer and request size, DeliverBodies of any shape (complete, partial prefix, empty, first/second body wrong, late answer to a given-up request, unsolicited), ExpireBodies (peer dropped when <=2 items timed out, idled otherwise, as fetchParts does), peer disconnect, Results; plus Revoke, Reserve+Cancel and lying header batches; states de-duplicated on the full bookkeeping of queue, peerConnections and PeerSet; distinct = distinct such states; liveness = backward reachability of completion over the recorded graph through moves of a fair environment with honest peer P1"
-	// part 1 (the queue under every interleaving) gets the first share of the
-	// budget, part 2 (the real fetch loop, fetch.go) the rest
-	if r.Quick() {
-		r.SetBudget(80e9)
-	} else {
-		r.SetBudget(19 * 60e9)
+	r.Rule += " || CONSECUTIVE SYNC CYCLES (systems queue<k>-...): the same BFS on ONE queue and peer set through k sync cycles; in every state of a cycle - completed, or cancelled right there with whatever is queued, in flight, done, ready or lacking - the op cycle(o,c) ends it and starts the next Synchronise exactly as spawnSync / synchronise / syncWithPeer do (queue.Close, queue.Reset, peers.Reset, Prepare(o)) for first block o and chain c: c = the chain just downloaded with every o from the ended cycle's origin up to one above the point its result window reached (import failure inside a handed-out batch / all taken / head advanced by the block fetcher), or c = the other chain (shares blocks 1..shared with it, different headers and bodies above) with every o in 1..shared+1 (ancestor at or below the fork point, also below the ended cycle's origin); requests in flight when a cycle ends are answered late in the next one (honest peer: always and first; arbitrary peers: possibly); the state key additionally holds cycle number, origin and chain; all oracles apply per cycle relative to ITS origin and chain (Results ascending, gap-free from the cycle's origin, exactly once, only headers of the cycle's chain, matching bodies; no abort; no lost task; completion of the cycle reachable from every state of it through fair moves) plus, directly after a cycle start: no task / request / done mark / result slot / header head / busy flag / lacking mark of the ended cycle is left, the window starts at o, the queue is open"
+	// part 1 (the queue under every interleaving; consecutive cycles first) gets the
+	// first share of the budget, part 2 (the real fetch loop, fetch.go) the rest
+	multiBudget, queueBudget, totalBudget := 30e9, 110e9, 215e9
+	if !r.Quick() {
+		multiBudget, queueBudget, totalBudget = 5*60e9, 21*60e9, 30*60e9
 	}
+	if v := os.Getenv("C18_MULTI_BUDGET"); v != "" { // seconds (experiments)
+		fmt.Sscan(v, &multiBudget)
+		multiBudget *= 1e9
+	}
+	r.SetBudget(time.Duration(multiBudget))
 	defer func() {
 		if os.Getenv("C18_PART") == "1" {
 			return
 		}
-		if r.Quick() {
-			r.SetBudget(175e9)
-		} else {
-			r.SetBudget(29 * 60e9)
-		}
+		r.SetBudget(time.Duration(totalBudget))
 		runFetch(r)
 	}()
 	if os.Getenv("C18_PART") == "2" {
@@ -114,23 +140,35 @@ func Run(r *mc.Run) {
 		}
 		cfgs = sel
 	}
-	var done []string
-	for _, cfg := range cfgs {
-		cfg := cfg
-		if r.Expired() {
-			break
+	explore := func(cfgs []config) []string {
+		var done []string
+		for _, cfg := range cfgs {
+			cfg := cfg
+			if r.Expired() {
+				break
+			}
+			downloader.VerifSetBlockCacheItems(cfg.cache)
+			g := newGraph()
+			f := func() mc.System { return newSys(r, cfg, g) }
+			name := cfg.sysName()
+			t0 := time.Now()
+			n := r.BFS(f, mc.SeqOpts{Name: name, Config: cfg.String(), Depth: 400, MaxStates: maxStates})
+			exhaustive := !r.Expired() && n <= maxStates
+			liveness(r, cfg, g, name, exhaustive)
+			r.ConfirmSeq(name, f)
+			done = append(done, fmt.Sprintf("%s: %d states, exhaustive=%v, %.1f s", cfg.String(), n, exhaustive, time.Since(t0).Seconds()))
 		}
-		downloader.VerifSetBlockCacheItems(cfg.cache)
-		g := newGraph()
-		f := func() mc.System { return newSys(r, cfg, g) }
-		name := fmt.Sprintf("queue-%s-%dp", cfg.pattern, cfg.peers)
-		n := r.BFS(f, mc.SeqOpts{Name: name, Config: cfg.String(), Depth: 400, MaxStates: maxStates})
-		exhaustive := !r.Expired() && n <= maxStates
-		liveness(r, cfg, g, name, exhaustive)
-		r.ConfirmSeq(name, f)
-		done = append(done, fmt.Sprintf("%s: %d states, exhaustive=%v", cfg.String(), n, exhaustive))
+		return done
 	}
-	r.SetExtra("configurations", done)
+	if os.Getenv("C18_MULTI") != "0" {
+		r.Assume("consecutive cycles: the cycle switch is atomic (Cancel waits for every fetcher goroutine before the next synchronise resets anything); the local chain between two cycles is only described by the next origin; a request in flight when its cycle ends is either answered in the next cycle or never")
+		r.SetExtra("configurations_consecutive_cycles", explore(multiConfigs(r)))
+	}
+	r.SetBudget(time.Duration(queueBudget))
+	if os.Getenv("C18_MULTI") == "only" {
+		return
+	}
+	r.SetExtra("configurations", explore(cfgs))
 }
 
 func liveness(r *mc.Run, cfg config, g *graph, name string, exhaustive bool) {
@@ -188,15 +226,12 @@ func Replay(r *mc.Run, v *mc.Violation) {
 		replayFetch(r, v)
 		return
 	}
-	pattern := strings.TrimPrefix(v.System, "queue-")
-	if i := strings.Index(pattern, "-"); i > 0 {
-		pattern = pattern[:i]
-	}
 	var cfg config
 	found := false
 	for _, tier := range []string{"quick", "thorough"} {
-		for _, c := range configs(mc.NewRun(r.ID, tier, r.Seed)) {
-			if c.pattern == pattern && c.String() == v.Config {
+		tr := mc.NewRun(r.ID, tier, r.Seed)
+		for _, c := range append(configs(tr), multiConfigs(tr)...) {
+			if c.sysName() == v.System && c.String() == v.Config {
 				cfg, found = c, true
 			}
 		}
